@@ -124,7 +124,7 @@ def monitor(ex, final):
             for t, step, cause, det in causes:
                 if t <= t_ev:
                     allowed |= REASON[cause]
-            if t_ev > fresh_until(ex, s, t_ev) or s.vanished:
+            if t_ev >= fresh_until(ex, s, t_ev) - 1e-6 or s.vanished:
                 allowed |= TIME_REASONS
             if any(p.t_start + ex.I + ex.T <= t_ev + 1e-6 for p in s.polls + [s.open_req] if p is not None):
                 allowed.add('transport error')
@@ -148,6 +148,11 @@ def monitor(ex, final):
             if t > fresh_until(ex, s, t):
                 continue
             if cause == 'protocol' and not proto_must_end(ex, s, step):
+                continue
+            if cause in ('ws-close', 'ws-fail') and any(
+                    not p.done or p._overlaps or p.t_end >= t for p in s.polls):
+                # a poll left over from before the upgrade may take the writer's stop sentinel:
+                # the end is then noticed at the writer's next timeout (judged at the end)
                 continue
             if nd != 1:
                 raise V(ex, 'end-cause-without-disconnect-event', cause,
